@@ -872,7 +872,8 @@ def stack_rows(rows):
     def el(k, t):
         k = z3.simplify(k)
         if z3.is_int_value(k):
-            return as_sort(els[k.as_long()](t), kind)
+            kk = k.as_long()
+            return as_sort(els[kk if 0 <= kk < len(els) else 0](t), kind)   # out of range: unspecified (reads are bounds-checked)
         e = as_sort(els[-1](t), kind)
         for j in range(len(els) - 2, -1, -1):
             e = z3.If(k == j, as_sort(els[j](t), kind), e)
